@@ -50,10 +50,19 @@ TwoPartyVector(s, grp, seedR) ==
 
 FaultVector(s, grp, k) ==
   VectorD("newsa_fault", << >>,
-    << Step("dh_calc", "C09", FALSE, [grp |-> grp, peer |-> PubT(grp, XI), rand |-> [mode |-> "det", seed |-> 40 + k]], [panic |-> FALSE, err |-> FALSE]),
+    << Step("dh_calc", "C09", FALSE, [grp |-> grp, peer |-> PubT(grp, XI), rand |-> [mode |-> "system"]], [panic |-> FALSE, err |-> FALSE, repeat |-> FALSE]),
+       Step("dh_calc", "C09", FALSE, [grp |-> grp, peer |-> PubT(grp, XI), rand |-> [mode |-> "system"]], [panic |-> FALSE, err |-> FALSE, repeat |-> FALSE]),
+       Step("dh_calc", "C09", FALSE, [grp |-> 16 - grp, peer |-> PubT(grp, XI), rand |-> [mode |-> "system"]], [panic |-> FALSE, err |-> FALSE, repeat |-> FALSE]),
+       Step("new_ike_sa", "C09", FALSE, [name |-> "", suite |-> s, prop |-> IkeProp(s, grp), wire |-> FALSE, peer |-> PubT(grp, XI), nonce |-> FillT("seeded", 32, 1),
+                                         spii |-> Zeros(8), spir |-> Zeros(8), rand |-> [mode |-> "system"]], [panic |-> FALSE, err |-> FALSE, repeat |-> FALSE]),
+       Step("new_ike_sa", "C09", FALSE, [name |-> "", suite |-> s, prop |-> IkeProp(s, grp), wire |-> FALSE, peer |-> PubT(grp, XI), nonce |-> FillT("seeded", 32, 1),
+                                         spii |-> Zeros(8), spir |-> Zeros(8), rand |-> [mode |-> "system"]], [panic |-> FALSE, err |-> FALSE, repeat |-> FALSE]),
+       \* after successful exchanges with this peer value the source fails: still an error and no key
+       Step("dh_calc", "C09", FALSE, [grp |-> grp, peer |-> PubT(grp, XI), rand |-> [mode |-> "fail", seed |-> 1, failat |-> 0]],
+            [panic |-> FALSE, err |-> TRUE, haspub |-> FALSE]), Step("dh_calc", "C09", FALSE, [grp |-> grp, peer |-> PubT(grp, XI), rand |-> [mode |-> "det", seed |-> 40 + k]], [panic |-> FALSE, err |-> FALSE]),
        \* the same octets in short reads give the same exponent, hence the same public value and shared secret
        Step("dh_calc", "C09", FALSE, [grp |-> grp, peer |-> PubT(grp, XI), rand |-> [mode |-> "det", seed |-> 40 + k, chunk |-> 3 + 20 * k]],
-            [panic |-> FALSE, err |-> FALSE, pub |-> Ref(1, "pub"), shared |-> Ref(1, "shared")]),
+            [panic |-> FALSE, err |-> FALSE, pub |-> Ref(7, "pub"), shared |-> Ref(7, "shared")]),
        Step("dh_calc", "C09", FALSE, [grp |-> grp, peer |-> PubT(grp, XI), rand |-> [mode |-> "fail", seed |-> 40 + k, chunk |-> 50, failat |-> 1 + (k % 4)]],
             [panic |-> FALSE, err |-> TRUE, haspub |-> FALSE]),
        NewIkeSaFailStep("C09", s, grp, PubT(grp, XI), FillT("seeded", 32, 1), Zeros(8), Zeros(8), [mode |-> "fail", seed |-> 1, failat |-> k]),
